@@ -182,11 +182,19 @@ def term_to_list(c, l2, l1):
 
 # ----------------------------------------------------------------------------- variable indices
 def gen_indices(rng):
-    return {"vars": [vjson(v) for v in gen_vars(rng, 0, 8, dup=0.1 if rng.random() < 0.2 else 0.0)]}
+    c = {"vars": [vjson(v) for v in gen_vars(rng, 0, 8, dup=0.1 if rng.random() < 0.2 else 0.0)]}
+    if len(c["vars"]) >= 2 and rng.random() < 0.3:
+        # the array asked is a view of the declared one (its first k columns, or two rows of it transposed): views keep the variable
+        # list they were cut from, and the index sets are those of that list
+        c["view"] = rng.choice([["cols", rng.randint(1, len(c["vars"]) - 1)], ["T"], ["sum"]])
+    return c
 
 def run_indices(c):
     vs = vars_from_json(c["vars"])
     arr = pnd.variable_ndarray(np.zeros((1, len(vs)), dtype=np.int64), variables=vs) if vs else pnd.variable_ndarray(np.zeros((1, 0), dtype=np.int64))
+    vw = c.get("view")
+    if vw:
+        arr = arr[:, :vw[1]] if vw[0] == "cols" else arr.T if vw[0] == "T" else arr.sum(axis=1)
     return list(arr.variables), [int(x) for x in arr.boolean_variable_indices.tolist()], [int(x) for x in arr.integer_variable_indices.tolist()]
 
 def oracle_indices(c):
